@@ -105,6 +105,7 @@ class Collector:
         self.stray_delivered = 0
         self.injected = 0
         self.summaries = []
+        self.alg = []          # (run, thread) of free-running runs with protocol points logged
 
     def add(self, run, mode):
         run.mode = mode
@@ -114,6 +115,8 @@ class Collector:
         self.stray_delivered += info["stray"]
         self.injected += len(info.get("injected", []))
         for t in order:
+            if mode in ("free", "fault", "stray-wake") and t.arr_h:
+                self.alg.append((run, t))
             self.items.append((run, t, t.ev))
             self.classes.add((t.ty, t.fin_plan, t.op, timing_class(t), tsm_freer(t), bool(t.wake), fault_kind(run), mode))
         for b in batches:
